@@ -21,9 +21,8 @@ import (
 )
 
 func (dec *Decoder) readUnsafeBytes() []byte {
-	bytes := dec.UnsafeNext(dec.ReadInt())
-	dec.Skip()
-	return bytes
+	bytes, safe := dec.next(dec.ReadInt())
+	return dec.skipAfter(bytes, safe)
 }
 
 func (dec *Decoder) readBytes() []byte {
